@@ -46,6 +46,14 @@ func fixedPrograms() []*Chunk {
 			&Form{K: "asg", Sub: "set", LVs: []*LVal{{Name: "l", Idx: lits("0")}},
 				Args: []*Expr{capt(chunkF(setF("l", list(lits("p", "q", "r")...)), cmd("put", lit("a"))))}},
 			cmd("put", vr("l"))),
+		// every component of a compound expression is evaluated, also after one that expands to no value
+		// (language.md "Order of evaluation"); witnesses of the seeded change
+		// C15-compound-stops-at-empty-product (compoundOp.exec leaving the loop on an empty product)
+		chunkF(varF("xs", list()), cmd("put", cmp(&Expr{K: "expl", S: "xs"}, captF(cmd("fail", lit("boom")))))),
+		chunkF(varF("xs", list()), varF("n", lit("0")), cmd("put", cmp(lit("pre"), &Expr{K: "expl", S: "xs"}, captF(setF("n", lit("1"))))),
+			cmd("put", vr("n"))),
+		chunkF(varF("n", lit("0")), cmd("put", cmp(captF(cmd("nop")), lit("k"), captF(setF("n", lit("1")), cmd("put", lit("w"))), captF(cmd("fail", lit("later"))))),
+			cmd("put", vr("n"))),
 		// "Closure semantics": make-adder
 		chunkF(fnF("make-adder", lamE(nil, "", nil, varF("n", lit("0")),
 			cmd("put", lamE(nil, "", nil, cmd("put", vr("n"))), lamE(nil, "", nil, setF("n", captF(cmd("+", vr("n"), lit("1")))))))),
@@ -101,6 +109,21 @@ func fixedPrograms() []*Chunk {
 		chunkF(varF("m", mapE(lit("k"), lit("v"), lit("k2"), lit("v2"))), &Form{K: "del", LVs: []*LVal{{Name: "m", Idx: lits("k2")}}}, cmd("put", vr("m")),
 			varF("l", list(mapE(lit("k"), lit("v"), lit("k2"), lit("v2")))), &Form{K: "del", LVs: []*LVal{{Name: "l", Idx: lits("0", "k2")}}}, cmd("put", vr("l"))),
 		chunkF(varF("x", lit("2")), &Form{K: "del", LVs: []*LVal{{Name: "x"}}}, cmd("put", vr("x"))),
+		// "del": several lvalues, nested elements, a missing key (no error), a missing outer key, a non-map
+		chunkF(&Form{K: "asg", Sub: "var", LVs: []*LVal{{Name: "a"}, {Name: "b"}, {Name: "c"}}, Args: lits("1", "2", "3")},
+			&Form{K: "del", LVs: []*LVal{{Name: "a"}, {Name: "b"}}}, cmd("put", vr("c"))),
+		chunkF(varF("m", mapE(lit("a"), mapE(lit("x"), lit("1"), lit("y"), lit("2")), lit("b"), lit("2"))),
+			&Form{K: "del", LVs: []*LVal{{Name: "m", Idx: lits("a", "x")}, {Name: "m", Idx: lits("b")}, {Name: "m", Idx: lits("nokey")}}}, cmd("put", vr("m")),
+			&Form{K: "del", LVs: []*LVal{{Name: "m", Idx: lits("gone", "x")}}}),
+		chunkF(varF("l", list(lits("a", "b")...)), &Form{K: "del", LVs: []*LVal{{Name: "l", Idx: lits("0")}}}),
+		chunkF(fnF("f", &Expr{K: "lam", L: &Lambda{Pos: []string{"a"}, Body: chunkF(&Form{K: "del", LVs: []*LVal{{Name: "a"}}}, varF("a", lit("2")), cmd("put", vr("a")))}}),
+			cmd("f", lit("1"))),
+		// options of a function literal: the default is evaluated where the literal is; `try … else`
+		chunkF(varF("x", lit("outer")), varF("f", &Expr{K: "lam", L: &Lambda{OptNames: []string{"o"}, OptDefs: []*Expr{vr("x")}, Body: chunkF(cmd("put", vr("o")))}}),
+			setF("x", lit("changed")), call(vr("f")), &Form{K: "cmd", Head: vr("f"), OptNames: []string{"o"}, OptVals: lits("given")},
+			&Form{K: "cmd", Head: vr("f"), OptNames: []string{"o", "o"}, OptVals: lits("first", "last")}),
+		chunkF(&Form{K: "try", Body: chunkF(cmd("put", lit("a"))), Var: "e", Catch: chunkF(cmd("put", lit("c"))), Else: chunkF(cmd("fail", lit("in-else"))), Finally: chunkF(cmd("put", lit("f")))}),
+		chunkF(&Form{K: "try", Body: chunkF(cmd("nop")), Var: "e", Catch: chunkF(cmd("nop")), Else: chunkF(cmd("put", vr("e")))}, cmd("put", vr("e"))),
 		// "set": rest variable, elements
 		chunkF(&Form{K: "decl", Names: []string{"x", "y", "z"}},
 			&Form{K: "asg", Sub: "set", LVs: []*LVal{{Name: "x"}, {Name: "y", Rest: true}, {Name: "z"}}, Args: lits("a", "b")}, cmd("put", vr("x"), vr("y"), vr("z")),
